@@ -1126,7 +1126,11 @@ func (s *stream) deliverLocked(data []byte, eventID string, responseTo jsonrpc.I
 	// SEP-2575 protocol-level error override: write the error as a raw
 	// JSON-RPC response with the spec-mandated HTTP status, bypassing any
 	// SSE framing.
-	if overrideStatus != 0 {
+	// That is only possible while nothing has been written to the response yet:
+	// once an event has gone out (a notification the handler sent before it
+	// failed), status and headers are on the wire, and the error travels as an
+	// ordinary event of the stream like any other response.
+	if overrideStatus != 0 && s.lastIdx < 0 {
 		s.w.Header().Set("Content-Type", "application/json")
 		s.w.WriteHeader(overrideStatus)
 		if _, err := s.w.Write(data); err != nil {
